@@ -39,8 +39,8 @@ def shards(tier):
 def strategy(tier):
     plain = G.graph_strategy(list(G.PLAIN), std=True)
     mixed = G.graph_strategy(list(G.PLAIN) + G.OPTIN_NAMES, std=True)
-    a = st.builds(lambda g, p, r: dict(g, kind='plain', protocol=p, remote=r), plain, st.integers(2, 5), st.booleans())
-    b = st.builds(lambda g, p: dict(g, kind='optin_false', protocol=p), mixed, st.integers(2, 5))
+    a = st.builds(lambda g, p, r: dict(g, kind='plain', protocol=p, remote=r), plain, st.integers(0, 5), st.booleans())
+    b = st.builds(lambda g, p: dict(g, kind='optin_false', protocol=p), mixed, st.integers(0, 5))
     c = st.builds(lambda g, ops: dict(g, kind='stdlib_after', ops=ops), mixed,
                   st.lists(st.sampled_from(['pickle', 'copy', 'deepcopy', 'forking', 'repickle_loaded']), min_size=1, max_size=4))
     return st.one_of(a, a, b, c)
